@@ -313,6 +313,9 @@ do_read(struct bufferevent_ssl *bev_ssl, int n_to_read) {
 					if (set_rbow(bev_ssl) < 0)
 						return OP_ERR | result;
 			} else {
+				/* Like a socket bufferevent: stop reading, so
+				 * that the EOF/error is reported only once. */
+				bufferevent_disable(bev, EV_READ);
 				bev_ssl->ssl_ops->conn_closed(bev_ssl, BEV_EVENT_READING, err, r);
 			}
 			result |= OP_BLOCKED;
@@ -361,6 +364,12 @@ do_write(struct bufferevent_ssl *bev_ssl, int atmost)
 
 	if (n > 8)
 		n = 8;
+	if (bev_ssl->last_write > 0 && n > 0 &&
+	    space[0].iov_len > (size_t)bev_ssl->last_write) {
+		/* A blocked write must be retried with the same length, but
+		 * the extent may have grown if data was appended meanwhile. */
+		space[0].iov_len = bev_ssl->last_write;
+	}
 	for (i=0; i < n;) {
 		if (bev_ssl->bev.write_suspended)
 			break;
@@ -860,6 +869,14 @@ be_ssl_enable(struct bufferevent *bev, short events)
 		r1 = start_reading(bev_ssl);
 	if (events & EV_WRITE)
 		r2 = start_writing(bev_ssl);
+
+	if (!bev_ssl->underlying && (events & EV_READ) && r1 == 0 &&
+	    bev_ssl->state == BUFFEREVENT_SSL_OPEN &&
+	    bev_ssl->ssl_ops->pending(bev_ssl->ssl) > 0) {
+		/* Decrypted data is waiting inside the SSL object: the socket
+		 * will not become readable for it. */
+		event_active(&bev->ev_read, EV_READ, 0);
+	}
 
 	if (bev_ssl->underlying) {
 		if (events & EV_READ)
